@@ -612,6 +612,7 @@ class TermBuilder:
         self.no_inline = frozenset()
         self._pcs = None
         self._pc_busy = False
+        self._no_prune = False
 
     # --------------------------------------------------------------- helpers
     def _node(self, at):
@@ -651,11 +652,73 @@ class TermBuilder:
         if c is not None:
             return c
         self._use_site = at
+        if len(defs) > 1 and not self._pc_busy and not self._no_prune:
+            defs = self._prune_by_bindings(defs)
         if self.guarded and len(defs) > 1:
             g = self._guarded(defs)
             if g is not None:
                 return g
         return phi(self.def_term(d) for d in defs)
+
+    def _prune_by_bindings(self, defs):
+        """In a helper that is looked through with a CONSTANT actual argument (a flag), a definition under a branch that the
+        constant rules out does not reach: f(x, flag=False) with 'if flag and ...: v = g(v)' leaves v as it was."""
+        if self._pc_busy or any(d.kind not in ("assign", "unpack", "param", "aug") or getattr(d, "stmt", None) is None and d.kind != "param" for d in defs):
+            return defs
+        from .guards import PathConditions
+        if self._pcs is None:
+            plain = TermBuilder(self.prog, self.fn, self.self_cls, self.inline, self.depth)
+            plain._no_prune = True
+            self._pcs = PathConditions(self.fn, plain)
+        m = {("param", k): v for k, v in self.bindings.items() if v[0] in ("const", "tuple", "list", "dict", "set")}
+
+        def truth(t):
+            if t in m:
+                t = m[t]
+            if t[0] == "const":
+                return bool(t[1])
+            if t[0] == "not":
+                v = truth(t[1])
+                return None if v is None else not v
+            if t[0] == "isnone":
+                x = m.get(t[1], t[1])
+                if x[0] in ("tuple", "list", "dict", "set"):
+                    return False    # a display is never None
+                return x == ("const", None) if x[0] == "const" else None
+            if t[0] in ("and", "or"):
+                vs = [truth(x) for x in t[1]]
+                if t[0] == "and":
+                    return False if False in vs else True if all(v is True for v in vs) else None
+                return True if True in vs else False if all(v is False for v in vs) else None
+            return None
+        keep = []
+        certain = []   # definitions whose branch is certainly taken
+        for d in defs:
+            if d.kind == "param" or getattr(d, "stmt", None) is None:
+                keep.append(d)
+                continue
+            try:
+                lits = self._pcs.of(d.stmt)
+            except Exception:
+                return defs
+            tv = [truth(l) for l in lits]
+            if any(v is False for v in tv):
+                continue
+            keep.append(d)
+            if lits and all(v is True for v in tv) and not self.cfg.enclosing_loops(d.stmt) and self.cfg.enclosing(d.stmt):
+                certain.append(d)
+        # 'v = a; if <certainly true>: v = b; use(v)': the earlier definition does not survive the branch
+        use = getattr(self, "_use_site", None)
+        for d2 in certain:
+            top = self.cfg.enclosing(d2.stmt)[0][0]
+            try:
+                tn, un = self.cfg.node(top), self._node(use)
+                if not self.cfg.dominates(tn, un) or any(p_ is top for p_, _w in self.cfg.enclosing(use)) if not isinstance(use, (int, str)) else not self.cfg.dominates(tn, un):
+                    continue
+            except Exception:
+                continue
+            keep = [d for d in keep if d is d2 or not (d.kind == "param" or (getattr(d, "stmt", None) is not None and not self.cfg.enclosing(d.stmt) and self.cfg.dominates(self.cfg.node(d.stmt), tn)))]
+        return keep or defs
 
     def _guarded(self, defs):
         """('gphi', frozenset{(literals, term)}): alternatives of a multiply-defined name keyed by the path
@@ -667,6 +730,7 @@ class TermBuilder:
         if self._pcs is None:
             # literals are computed by a separate, unguarded builder so that no half-built guarded term is memoised
             plain = TermBuilder(self.prog, self.fn, self.self_cls, self.inline, self.depth)
+            plain._no_prune = True
             self._pcs = PathConditions(self.fn, plain)
         pcs = [tuple(self._pcs.of(d.stmt)) for d in defs]
         common = set(pcs[0])
